@@ -5,6 +5,10 @@ TECH = "contract-based deductive verification: pyvc VC generation from the real 
 TRUST = ("home-made VC generator (Python subset semantics of DESIGN section 2), assumed external contracts listed in the evidence "
          "file's trusted_base, solver soundness; see evidence.assumptions")
 CLAIMED = {
+    "C17": ("proof", "Ghost-provenance clauses at every store site of textual metadata (pin cite, extra, year, parenthetical, plaintiff, defendant, antecedent, "
+            "publisher, month, day): the stored value is a substring of the window text[a:b] it was matched in and a, b lie inside the citation's full span; the "
+            "extracted plaintiff sits exactly at the full-span start; parties/year are copied from a preceding citation only when both full spans start at the same "
+            "defined place. String steps are closed lemmas discharged separately.", "6/C17"),
     "C16": ("proof", "Equality/hash clauses derived from the real __hash__ bodies (dict displays evaluated symbolically, A-HASH): case citations are equal exactly when "
             "volume, page and normalised reporter agree and neither page is a placeholder; placeholder, id. and unknown citations equal only themselves; citations of "
             "different kinds are never equal; resources are equal exactly when their citations are; __eq__ is hash equality; the case hash reads only groups, edition guess "
